@@ -80,3 +80,16 @@ func H_C01_R11_probe(ct, fr int64) {
 	got := vWind(sol, p) != 0
 	vAssert("C01.region", vImplies(far, got == want))
 }
+
+// H_C01_R: C01 on rectilinear family fam (see vFamily).
+func H_C01_R(fam, ct, fr int64) {
+	subj, clip := vFamily(fam)
+	sol := BooleanOpPaths64(ClipType(ct), subj, clip, FillRule(fr))
+	vObservePaths("sol", sol)
+	cl := clip
+	if cl == nil {
+		cl = Paths64{}
+	}
+	vCheckRegionRect("C01.region", ClipType(ct), FillRule(fr), subj, cl, sol, vB29)
+	vCover("C01.R.done")
+}
